@@ -1,3 +1,4 @@
 pub mod logsim;
 pub mod routersim;
 pub mod streamsim;
+pub mod netsim;
